@@ -4,9 +4,9 @@ var checks = map[string]check{
 	"C03": {
 		ID: "C03", Pkg: "c03",
 		Jobs: []job{
-			{Run: "^TestFidelity$", Quick: 2500, QShards: 6, Thor: 60000, TShards: 14},
-			{Run: "^TestLayoutIndependence$", Quick: 2000, QShards: 4, Thor: 40000, TShards: 14},
-			{Run: "^TestTotality$", Quick: 4000, QShards: 6, Thor: 60000, TShards: 14},
+			{Run: "^TestFidelity$", Quick: 2500, QShards: 6, Thor: 25000, TShards: 14},
+			{Run: "^TestLayoutIndependence$", Quick: 2000, QShards: 4, Thor: 15000, TShards: 14},
+			{Run: "^TestTotality$", Quick: 4000, QShards: 6, Thor: 25000, TShards: 14},
 		},
 		Fuzz:   []fuzzJob{{Target: "FuzzParse", Dur: "300s"}},
 		Rule:   "fidelity/layout: IDL models drawn by rapid and rendered under drawn layouts (separator, whitespace/comment at every token boundary, quote style, int/double spellings); non-trivial = document with >=5 definitions of >=3 kinds, >=2 separator styles and >=1 comment inside a definition, distinct by text. totality: raw bytes, token soups over the grammar's terminals, deep nesting (child process), valid documents with 1-3 edits; non-trivial = non-raw-bytes input longer than 20 bytes, distinct by content",
